@@ -124,6 +124,82 @@ class DateTimeTwin(Sub):
         return nt, label
 
 
+def outcome(f):
+    try:
+        return ("value", f())
+    except Exception as e:  # noqa: BLE001  - the native class's exception type is part of what a drop-in replacement reproduces
+        return ("raises", type(e).__name__)
+
+
+class NaiveTwin(Sub):
+    name = "naive_twin"
+    backends = ("py",)
+    n = {"quick": 5000, "thorough": 100000}
+    shards = {"quick": 2, "thorough": 4}
+    rule = ("naive DateTime against the native naive datetime with the same fields and fold, with the process's local zone (TZ + tzset) switched from case to case: "
+            "accessors, timestamp(), astimezone() / astimezone(None) / astimezone(zone) (a naive value is read as local time), comparisons, hash, subtraction; "
+            "non-trivial: the wall time is within a day of a transition of the local zone, or fold=1")
+
+    def strategy(self, ctx):
+        @st.composite
+        def gen(draw):
+            z = draw(st.sampled_from(["America/New_York", "Europe/Paris", "UTC", "Australia/Lord_Howe", "Asia/Kolkata", "America/Sao_Paulo"]))
+            tr = [t for t in T.transitions(z) if 0 < t[0] < 2**31 - 10**6]
+            if tr and draw(st.integers(0, 2)) > 0:
+                t, a, b = tr[draw(st.integers(0, len(tr) - 1))]
+                w = (t + max(a, b)) * US + draw(S.uni(-2 * 86400 * US, 2 * 86400 * US))
+            else:
+                w = draw(S.uni(86400 * 2 * US, (2**31 - 10**6) * US))
+            return {"local": z, "w": w, "fold": draw(st.integers(0, 1)), "to": draw(S.zones()), "d": draw(st.sampled_from([0, 1, -1, 3600 * US, -86400 * US, 123456789]))}
+        return gen()
+
+    def check(self, case, ctx):
+        import os
+        import time as _time
+        w = T.wall_from_us(case["w"])
+        f = T.fields(w)
+        p, n = pendulum.naive(*f, fold=case["fold"]), D.datetime(*f, fold=case["fold"])
+        w2 = T.wall_from_us(case["w"] + case["d"])
+        p2, n2 = pendulum.naive(*T.fields(w2)), D.datetime(*T.fields(w2))
+        old = os.environ.get("TZ")
+        os.environ["TZ"] = case["local"]
+        _time.tzset()
+        try:
+            req(type(p) is DateTime and p.tzinfo is None and p.fold == n.fold, "harness: naive value not built as expected", got=repr(p))
+            for m in UNARY:
+                a, b = outcome(getattr(p, m)), outcome(getattr(n, m))
+                req(a == b, f"naive {m}() differs from the native naive datetime (local zone {case['local']})", got=str(a), native=str(b), value=n.isoformat(), fold=n.fold)
+            for nm, arg in (("astimezone()", ()), ("astimezone(None)", (None,)), ("astimezone(ZoneInfo)", (T.zi(case["to"]),)), ("astimezone(Timezone)", (pendulum.timezone(case["to"]),)),
+                            ("astimezone(datetime.timezone.utc)", (D.timezone.utc,))):
+                a, b = outcome(lambda: p.astimezone(*arg)), outcome(lambda: n.astimezone(*arg))
+                req(a[0] == b[0], f"naive {nm}: pendulum {a[0]} where native {b[0]}", got=str(a[1]), native=str(b[1]), value=n.isoformat(), fold=n.fold)
+                if a[0] == "value":
+                    x, y = a[1], b[1]
+                    req(type(x) is DateTime, f"naive {nm} does not return a DateTime", got=type(x).__name__)
+                    req(x.tzinfo is not None and T.fields(x) == T.fields(y) and x.utcoffset() == y.utcoffset() and x.fold == y.fold and x.isoformat() == y.isoformat(),
+                        f"naive {nm} differs from native (a naive value is read in the local zone {case['local']})", got=x.isoformat(), native=y.isoformat(), value=n.isoformat(), fold=n.fold)
+                else:
+                    req(a[1] == b[1], f"naive {nm} raises another exception type than native", got=a[1], native=b[1])
+            for fmt in FMT:
+                req(p.strftime(fmt) == n.strftime(fmt), f"naive strftime({fmt!r}) differs from native", got=p.strftime(fmt), native=n.strftime(fmt))
+            req(p == n and n == p and hash(p) == hash(n), "naive value does not compare/hash equal to its native twin")
+            for nm, op in CMP:
+                for lbl, x in (("pendulum", p2), ("native", n2)):
+                    req(op(p, x) == op(n, x) and op(x, p) == op(x, n), f"naive {nm} with a {lbl} operand differs from the native twin", a=n.isoformat(), b=n2.isoformat())
+            e = n - n2
+            for lbl, (x, y) in (("p - p", (p, p2)), ("p - native", (p, n2)), ("native - p", (n, p2))):
+                req(vt(x - y) == vt(e), f"naive {lbl} differs from the native subtraction", got=vt(x - y), native=vt(e))
+        finally:
+            if old is None:
+                os.environ.pop("TZ", None)
+            else:
+                os.environ["TZ"] = old
+            _time.tzset()
+        tr = T.transitions(case["local"])
+        near = any(abs((t + a) * US - case["w"]) < 86400 * US for t, a, b in tr)
+        return near or case["fold"] == 1, case["local"]
+
+
 class Constructors(Sub):
     name = "constructors_types"
     backends = ("py",)
@@ -206,4 +282,4 @@ class DateTimeOfDay(Sub):
         return d1.year < 1000 or case["t1"] % US != 0, "date-time"
 
 
-SUBS = [DateTimeTwin(), Constructors(), DateTimeOfDay()]
+SUBS = [DateTimeTwin(), NaiveTwin(), Constructors(), DateTimeOfDay()]
